@@ -7,6 +7,7 @@
 From PV Require Import Lib.Py Spec.IRSemArith Gen.ir2py_runtime Model.Ir2Py Proofs.C24_ir2py.
 From PV Require Spec.IRSyntax Spec.IRSem.
 From PV Require Import Model.Ir2PyFunc Proofs.C24_func Model.Ir2PyRot Proofs.C24_rot Model.Ir2PyMod Proofs.C24_mod.
+From PV Require Import Model.Ir2PyRt Proofs.C24_rt.
 From Coq Require Import String.
 Open Scope Z_scope.
 
@@ -206,6 +207,41 @@ Example c24_module_simulates_nonvacuous :
     tr_of (IRSem.s_tr s') = [("getk"%string, [4])] /\
     run_mod_int (fun _ _ => 0) fs 40 "useext" [4] = Ok (172, [("getk"%string, [4])]).
 Proof. exact module_simulates_nonvacuous. Qed.
+
+(* ---- the runtime OBJECT (Model.Ir2PyRt: heap and stack bytearrays, get_memory dispatch at HEAP_START =
+   Gen.ir2py_runtime.heap_start, alloca, free; scripts run on the real emitted IrPy on every run).
+   Stack discipline, for every runtime state whose stack stays below HEAP_START: alloca n returns
+   (len stack, n); a store of any IR integer type anywhere inside the new block succeeds, the load at the same
+   address returns the value, the heap and the older stack bytes are untouched, and free n restores exactly
+   the state before the alloca. *)
+Theorem c24_rt_alloca_store_load_free : forall r n t o v,
+  0 <= n -> len (stack r) + n <= heap_start ->
+  In t ir_int_types -> 0 <= o -> o + bits t / 8 <= n -> in_range t v ->
+  exists r1 r2,
+    alloca r n = Ok (r1, (len (stack r), n)) /\
+    rt_store (ity_name t) r1 (len (stack r) + o) v = Ok r2 /\
+    rt_load (ity_name t) r2 (len (stack r) + o) = Ok v /\
+    heap r2 = heap r /\ len (stack r2) = len (stack r) + n /\
+    firstn (List.length (stack r)) (stack r2) = stack r /\
+    free r2 n = Ok r.
+Proof. exact alloca_store_load_free. Qed.
+Print Assumptions c24_rt_alloca_store_load_free.
+
+(* addresses >= HEAP_START go to the heap: store-then-load exact, the stack and every other heap byte unchanged *)
+Theorem c24_rt_heap_store_load : forall r t a v,
+  In t ir_int_types -> 0 <= a -> a + bits t / 8 <= len (heap r) -> in_range t v ->
+  exists r', rt_store (ity_name t) r (heap_start + a) v = Ok r' /\ stack r' = stack r /\
+    len (heap r') = len (heap r) /\ rt_load (ity_name t) r' (heap_start + a) = Ok v /\
+    firstn (Z.to_nat a) (heap r') = firstn (Z.to_nat a) (heap r) /\
+    skipn (Z.to_nat (a + bits t / 8)) (heap r') = skipn (Z.to_nat (a + bits t / 8)) (heap r).
+Proof. exact heap_store_load. Qed.
+Print Assumptions c24_rt_heap_store_load.
+
+Example c24_rt_nonvacuous :
+  run_ops (mk_rt [9; 9; 9; 9] [7]) [OAlloca 4; OStore "i16" 2 (-2); OLoad "u8" 2; OStore "u16" (heap_start + 1) 258;
+                                    OLoad "i32" heap_start; OFree 4; OTop] []
+  = Ok ([1; 4; 254; 151061001; heap_start + 4], [9; 2; 1; 9], [7]).
+Proof. vm_compute. reflexivity. Qed.
 
 (* hypotheses are inhabited: i8 100 * 3 wraps to 44; -7 / 2 = -3; -7 % 2 = -1; -128 >> 7 = -1 *)
 Example c24_nonvacuous :
